@@ -84,3 +84,95 @@ V("C01", "new-setter-unguarded", I,
   ("    def num_ctx_switches(self):",
    "    def set_oom_score(self, value):\n        return os.kill(self.pid, value)\n\n    def num_ctx_switches(self):"),
   "fires:C01.R1")
+
+# ----------------------------------------------------------------- C05
+V("C05", "defect-F10-returns-flat", I,
+  ("if ppid == self.pid and pid != self.pid:", "if ppid == self.pid:"), "fires:C05.R2")
+V("C05", "defect-F10-returns-rec", I,
+  ("                    if child_pid == self.pid:\n", "                    if child_pid == -1:\n"),
+  "fires:C05.R2")
+V("C05", "seen-check-removed", I,
+  ("                if pid in seen:\n", "                if pid in ():\n"), "fires:C05.R1")
+V("C05", "seen-add-removed", I,
+  ("                seen.add(pid)\n", "                pass\n"), "fires:C05.R1")
+V("C05", "ctime-test-dropped-flat", I,
+  ("                        if self.create_time() <= child.create_time():\n                            ret.append(child)",
+   "                        if child.create_time():\n                            ret.append(child)"),
+  "fires:C05.R2")
+V("C05", "ctime-test-inverted-rec", I,
+  ("intime = self.create_time() <= child.create_time()",
+   "intime = self.create_time() >= child.create_time()"), "fires:C05.R2")
+V("C05", "children-guard-removed", I,
+  ("        self._raise_if_pid_reused()\n        ppid_map = _ppid_map()",
+   "        ppid_map = _ppid_map()"), "fires:C05.R3")
+V("C05", "ppid-guard-removed", I,
+  ("        self._raise_if_pid_reused()\n        if POSIX:\n            return self._proc.ppid()",
+   "        if POSIX:\n            return self._proc.ppid()"), "fires:C05.R3")
+V("C05", "parent-ctime-dropped", I,
+  ("                if parent.create_time() <= ctime:\n                    return parent",
+   "                if parent.create_time():\n                    return parent"),
+  "fires:C05.R4")
+V("C05", "parent-lowest-pid-dropped", I,
+  ("        if self.pid == lowest_pid:\n            return None\n", ""), "fires:C05.R4")
+V("C05", "child-handler-narrowed", I,
+  ("                        if intime:\n                            ret.append(child)\n                            stack.append(child_pid)\n                    except (NoSuchProcess, ZombieProcess):",
+   "                        if intime:\n                            ret.append(child)\n                            stack.append(child_pid)\n                    except AccessDenied:"),
+  "fires:C05.R5")
+V("C05", "benign-ge-form", I,
+  ("                        if self.create_time() <= child.create_time():\n                            ret.append(child)",
+   "                        if child.create_time() >= self.create_time():\n                            ret.append(child)"),
+  "silent")
+V("C05", "benign-seen-on-push", I,
+  ("                    if child_pid == self.pid:\n", "                    if child_pid == self.pid or child_pid in seen:\n"),
+  "silent")
+
+# ----------------------------------------------------------------- C15
+V("C15", "wait-negative-timeout-accepted", I,
+  ("        if timeout is not None and not timeout >= 0:\n            msg = \"timeout must be a positive integer\"",
+   "        if timeout is not None and not timeout >= -1:\n            msg = \"timeout must be a positive integer\""),
+  "fires:C15.R1")
+V("C15", "wait-exitcode-not-cached", I,
+  ("        if self._exitcode is not _SENTINEL:\n            return self._exitcode\n", ""),
+  "fires:C15.R1")
+V("C15", "early-status-return", P,
+  ("            if retpid == 0:\n                # WNOHANG flag was used and PID is still running.\n                interval = sleep(interval)\n                continue\n",
+   "            if retpid == 0 and timeout is None:\n                # WNOHANG flag was used and PID is still running.\n                interval = sleep(interval)\n                continue\n"),
+  "fires:C15.R2")
+V("C15", "none-returned-while-alive", P,
+  ("            while _pid_exists(pid):\n                interval = sleep(interval)\n            return None",
+   "            if _pid_exists(pid):\n                interval = sleep(interval)\n            return None"),
+  "fires:C15.R2")
+V("C15", "eintr-gives-up", P,
+  ("        except InterruptedError:\n            interval = sleep(interval)",
+   "        except InterruptedError:\n            return None"), "fires:C15.R2")
+V("C15", "deadline-checked-after-sleep", P,
+  ("        if timeout is not None:\n            if _timer() >= stop_at:\n                raise TimeoutExpired(timeout, pid=pid, name=proc_name)\n        _sleep(interval)\n",
+   "        _sleep(interval)\n        if timeout is not None:\n            if _timer() >= stop_at:\n                raise TimeoutExpired(timeout, pid=pid, name=proc_name)\n"),
+  "fires:C15.R3")
+V("C15", "timeout-expired-wrong-seconds", P,
+  ("raise TimeoutExpired(timeout, pid=pid, name=proc_name)",
+   "raise TimeoutExpired(interval, pid=pid, name=proc_name)"), "fires:C15.R3")
+V("C15", "backoff-cap-raised", P,
+  ("return _min(interval * 2, 0.04)", "return _min(interval * 2, 0.4)"), "fires:C15.R4")
+V("C15", "backoff-start-changed", P,
+  ("    interval = 0.0001\n", "    interval = 0.01\n"), "fires:C15.R4")
+V("C15", "signal-not-negated", P,
+  ("return negsig_to_enum(-os.WTERMSIG(status))", "return negsig_to_enum(os.WTERMSIG(status))"),
+  "fires:C15.R5")
+V("C15", "exit-status-raw", P,
+  ("return os.WEXITSTATUS(status)", "return status"), "fires:C15.R5")
+V("C15", "alive-not-updated-last-sweep", I,
+  ("            check_gone(proc, 0)\n        alive = alive - gone  # noqa: PLR6104",
+   "            check_gone(proc, 0)"), "fires:C15.R6")
+V("C15", "callback-on-timeout-path", I,
+  ("        except (TimeoutExpired, subprocess.TimeoutExpired):\n            pass\n        else:\n            if returncode is not None or not proc.is_running():",
+   "        except (TimeoutExpired, subprocess.TimeoutExpired):\n            returncode = None\n        if True:\n            if returncode is not None or not proc.is_running():"),
+  "fires:C15.R6")
+V("C15", "gone-without-liveness", I,
+  ("if returncode is not None or not proc.is_running():", "if returncode is not None or proc.is_running():"),
+  "fires:C15.R6")
+V("C15", "benign-rename-stop-at", P,
+  [("        stop_at = _timer() + timeout", "        deadline = _timer() + timeout"),
+   ("            if _timer() >= stop_at:", "            if _timer() >= deadline:")], "silent")
+V("C15", "benign-deadline-flipped", P,
+  ("            if _timer() >= stop_at:", "            if stop_at <= _timer():"), "silent")
